@@ -234,3 +234,56 @@ func keyFor(r *rand.Rand, kc, max int) []byte {
 	}
 	return mon.Bytes(r, 1+r.IntN(max))
 }
+
+// ---- caller-memory hygiene helpers (io.Writer must not retain p; returned
+// slices must not alias memory the implementation reuses later)
+
+// scribble overwrites a caller-owned buffer after the callee has returned.
+func scribble(b []byte) {
+	for i := range b {
+		b[i] = 0xA5
+	}
+}
+
+// cloneKey copies a key preserving nil-ness.
+func cloneKey(k []byte) []byte {
+	if k == nil {
+		return nil
+	}
+	return append([]byte{}, k...)
+}
+
+type retainedSlice struct {
+	s, snap []byte
+	what    string
+}
+
+// retainRing keeps the last 8 slices handed out by the code under test (Sum
+// results, filled Read buffers, MarshalBinary output) with a snapshot each;
+// verify re-compares them after later calls on the same and other objects.
+type retainRing struct {
+	items [8]retainedSlice
+	n     int
+}
+
+func (rr *retainRing) add(s []byte, what string) {
+	if len(s) == 0 {
+		return
+	}
+	rr.items[rr.n%len(rr.items)] = retainedSlice{s, append([]byte{}, s...), what}
+	rr.n++
+}
+
+// verify returns the first retained slice whose content changed (and drops
+// it), or nil.
+func (rr *retainRing) verify() *retainedSlice {
+	for i := range rr.items {
+		it := &rr.items[i]
+		if it.s != nil && string(it.s) != string(it.snap) {
+			bad := *it
+			*it = retainedSlice{}
+			return &bad
+		}
+	}
+	return nil
+}
